@@ -426,6 +426,15 @@ fn parse_expression<'a>(input: &mut &'a BStr) -> winnow::Result<Expression<'a>> 
     parse_logical_or.parse_next(input)
 }
 
+/// Parses `text` as a single expression; the whole input (up to trailing whitespace) must be consumed.
+#[cfg(feature = "verif_hooks")]
+pub(crate) fn verif_parse_expression(text: &str) -> Option<Expression<'_>> {
+    let mut input = BStr::new(text.as_bytes());
+    let expr = parse_expression.parse_next(&mut input).ok()?;
+    let _: winnow::Result<&[u8]> = multispace0.parse_next(&mut input);
+    input.is_empty().then_some(expr)
+}
+
 /// Parse logical OR: expression || expression
 fn parse_logical_or<'a>(input: &mut &'a BStr) -> winnow::Result<Expression<'a>> {
     let mut left = parse_logical_and.parse_next(input)?;
